@@ -18,6 +18,11 @@ lc=$(echo $ID | tr 'A-Z' 'a-z'); RT=/tmp/rt
 OUT=$RT/$lc-out
 sfx=""; { [ "$N" = "2" ] || [ "$N" = "4" ] || [ "$N" = "6" ] || [ "$N" = "8" ] || [ "$N" = "10" ] || [ "$N" = "12" ] || [ "$N" = "14" ] || [ "$N" = "16" ] || [ "$N" = "18" ] || [ "$N" = "20" ]; } && sfx="2"
 PATCH=$OUT/patch$sfx.diff; DEMO=$OUT/demo$sfx; META=$OUT/meta$sfx.json
+if [ ! -f "$PATCH" ] && [ -f /verif/seeded/$ID-$N/patch.diff ]; then
+  # the agents' scratch output is gone: rebuild it from what was kept under /verif/seeded
+  mkdir -p $OUT; cp /verif/seeded/$ID-$N/patch.diff $PATCH; rm -rf $DEMO; cp -r /verif/seeded/$ID-$N/demo $DEMO
+  cp /verif/seeded/$ID-$N/meta.agent.json $META 2>/dev/null
+fi
 [ -f "$PATCH" ] || { echo "no $PATCH"; exit 2; }
 export GOFLAGS=-mod=mod GOPROXY=off GOSUMDB=off GOTOOLCHAIN=local
 WT=/tmp/sd/wt-$lc-$N; rm -rf $WT; mkdir -p /tmp/sd; git -C /repo worktree prune; git -C /repo worktree add --detach $WT ${SEEDED_BASE:-HEAD} -q || exit 2   # SEEDED_BASE=dbde1ab: the tree the patches of rounds 1-9 were written against (before repair F21)
